@@ -83,7 +83,7 @@ theorem run_ok_iff (P : Prims) (O : OutPrims) (cfg : Cfg) (fs : FS) (fuel : Nat)
   | unmodelled w => simp [runCompiled]
 
 /-- an `include` tag whose argument is a string literal naming a file that renders normally (as a template
-    of its own, with the includer's variables, at fuel one less) is one write of that output -/
+    of its own, with the includer's variables, at fuel one less) is one verbatim write of that output -/
 theorem writesAt_include (P : Prims) (O : OutPrims) (cfg : Cfg) (fs : FS) (fuel : Nat) (line : Nat) (args name : Bytes) (env : Env)
     (body out : Bytes) (he : parseExprSource args = .ok (.lit (.str name)))
     (hfile : fileSource fs (joinPath (dirPath cfg.path) name) = some body)
@@ -92,4 +92,7 @@ theorem writesAt_include (P : Prims) (O : OutPrims) (cfg : Cfg) (fs : FS) (fuel 
   obtain ⟨root, hc, hr⟩ := (run_ok_iff P O cfg fs fuel body line env out).mp hbody
   intro B
   rw [include_denotation_mk P O cfg fs fuel line args ⟨env, ⟨B, false⟩⟩ (.lit (.str name)) name body root out he rfl hfile hc hr]
-  exact ⟨B, out, write_done_run _ _ out ⟨env, ⟨B, false⟩⟩, rfl⟩
+  refine ⟨B ++ out, [], ?_, by simp⟩
+  simp only [wrapFailAt, M.mapFail, bind, M.bind, pure, M.pure]
+  rw [Prog.runPure_mapFail, Prog.runPure_bind, writeVerbatim_runPure]
+  simp [Prog.runPure]
